@@ -48,7 +48,7 @@ func histScriptFor(ops []kmodel.Op) *histScript {
 }
 
 type c09Stats struct {
-	transitions, replayed, refusals, eacces, einval, invalid, attached, modelMismatch, hung int64
+	transitions, replayed, refusals, eacces, einval, invalid, attached, modelMismatch, hung, denied int64
 }
 
 func histString(ops []kmodel.Op) string {
@@ -151,9 +151,11 @@ func replayHistory(ctx *evid.Ctx, priv bool, ops []kmodel.Op, st *c09Stats) {
 		}
 		rep := map[string]any{"privileged": priv, "history": ops[:i+1], "history_text": histString(ops[:i+1])}
 		if o.Op == "supported" {
-			if res.Bool == nil || !*res.Bool {
-				if isLast {
+			if res.Bool == nil || *res.Bool != out.Supported {
+				if isLast && out.Supported {
 					ctx.Violation("C09:supported:false", "Supported() returned false on a kernel with seccomp", rep)
+				} else if isLast {
+					ctx.Violation("C09:supported:true-though-denied", "Supported() returned true on a thread whose filter answers EPERM to seccomp(2)", rep)
 				}
 			}
 			changed := false
@@ -186,7 +188,7 @@ func replayHistory(ctx *evid.Ctx, priv bool, ops []kmodel.Op, st *c09Stats) {
 				switch {
 				case res.Err == nil && !inForce:
 					ctx.Violation(key("nil-without-filter"), fmt.Sprintf("LoadFilter returned nil but the filter is not in force (kernel: %s); history: %s; caller before %+v after %+v", out.Reason, histString(ops), prev.th[o.T], cur.th[o.T]), rep)
-				case o.Kind == kmodel.KindInvalid && (len(res.Seam) > 0 || cur.th != prev.th):
+				case o.Kind == kmodel.KindInvalid && (len(installCalls(res.Seam)) > 0 || cur.th != prev.th):
 					ctx.Violation(key("invalid-policy-touched-kernel"), fmt.Sprintf("a load with an invalid policy changed process state or reached the kernel: before %+v after %+v seam=%v", prev.th, cur.th, res.Seam), rep)
 				case res.Err != nil && !inForce:
 					// failed load: no filter may be left behind anywhere
@@ -201,6 +203,8 @@ func replayHistory(ctx *evid.Ctx, priv bool, ops []kmodel.Op, st *c09Stats) {
 					atomic.AddInt64(&st.refusals, 1)
 				case "EACCES":
 					atomic.AddInt64(&st.eacces, 1)
+				case "EPERM-by-filter":
+					atomic.AddInt64(&st.denied, 1)
 				case "EINVAL":
 					atomic.AddInt64(&st.einval, 1)
 				case "invalid-policy":
@@ -210,7 +214,7 @@ func replayHistory(ctx *evid.Ctx, priv bool, ops []kmodel.Op, st *c09Stats) {
 				}
 			}
 			// seam: what was handed to the kernel is the compiled program
-			if isLast && len(res.Seam) == 1 && (res.Seam[0].Hash != res.Compiled || res.Seam[0].Len != res.CompLen) {
+			if in := installCalls(res.Seam); isLast && len(in) == 1 && (in[0].Hash != res.Compiled || in[0].Len != res.CompLen) {
 				ctx.Violation("C09:program-differs", "program handed to seccomp(2) differs from the compiled one", rep)
 			}
 		}
@@ -303,10 +307,10 @@ func checkC09(tier, replay string) int {
 	ctx.Cov["states"] = states
 	ctx.Cov["transitions"] = st.transitions
 	ctx.Cov["traces_validated_against_impl"] = st.replayed
-	ctx.Cov["final_steps_by_kernel_answer"] = map[string]int64{"attached": st.attached, "tsync_refused": st.refusals, "EACCES": st.eacces, "EINVAL": st.einval, "invalid_policy_no_kernel_contact": st.invalid}
+	ctx.Cov["final_steps_by_kernel_answer"] = map[string]int64{"attached": st.attached, "tsync_refused": st.refusals, "EACCES": st.eacces, "EINVAL": st.einval, "invalid_policy_no_kernel_contact": st.invalid, "EPERM_from_an_earlier_filter_that_denies_seccomp": st.denied}
 	ctx.Cov["model_kernel_mismatches"] = st.modelMismatch
 	ctx.Cov["depth"] = depth
-	ctx.Cov["rule"] = "explicit-state breadth-first search over the kernel model (3 harness threads + the class of all other threads; per thread: no_new_privs bit and filter stack with ancestry) with 85 operations (Load on T0..T2 x {A,B,invalid,oversize,badflag} x tsync x nnp, valid kinds also with the log flag; Supported) from the privileged and the uid-65534 initial state, deduplicated on the canonical model state; every transition is replayed by running its shortest history plus the operation through the real LoadFilter in a fresh child process, reading /proc/self/task/*/status and probing after every step"
+	ctx.Cov["rule"] = "explicit-state breadth-first search over the kernel model (3 harness threads + the class of all other threads; per thread: no_new_privs bit and filter stack with ancestry) with 85 operations (Load on T0..T2 x {A,B,invalid,oversize,badflag,denysec = a filter that answers EPERM to seccomp(2) itself} x tsync x nnp, valid kinds also with the log flag; Supported) from the privileged and the uid-65534 initial state, deduplicated on the canonical model state; every transition is replayed by running its shortest history plus the operation through the real LoadFilter in a fresh child process, reading /proc/self/task/*/status and probing after every step"
 	ctx.Assumptions = []string{"kernel model kmodel (validated against this kernel on every transition: model_kernel_mismatches must be 0)", "state deduplication is sound because the compared observables (NNP, filter count, probe answers of every thread) plus the ancestry structure kept in the canonical form are the whole state the kernel rules depend on", "runtime threads other than the three harness threads only change through thread-sync"}
 	return ctx.Finish()
 }
